@@ -247,17 +247,23 @@ def check_prefix_kind(spec):
 def check_random_sampler(spec):
     from kappadata.samplers import RandomSampler
     N, r = spec["N"], spec["repeats"]
-    s = RandomSampler(PlainDS(N), num_repeats=r, generator=torch.Generator().manual_seed(spec["seed"]))
+    repl = bool(spec.get("replacement"))
+    s = RandomSampler(PlainDS(N), replacement=repl, num_repeats=r, generator=torch.Generator().manual_seed(spec["seed"]))
     seq = list(s)
     if len(seq) != len(s) or len(seq) != N:
         raise Violation("stream-length!=len(sampler):random", f"{len(seq)} vs {len(s)}")
     if any(not 0 <= i < N for i in seq):
         raise Violation("index-out-of-range:random", "")
-    if r > 1:
+    if r > 1 and repl:
+        # drawn with replacement: every draw still occupies num_repeats consecutive slots (values may recur in later runs)
+        for k in range(0, len(seq), r):
+            if len(set(seq[k:k + r])) != 1:
+                raise Violation("repeats-not-consecutive:random:replacement", f"num_repeats={r}: {seq[:4 * r]}")
+    elif r > 1:
         _runs(seq, r, "random")
-    elif sorted(seq) != list(range(N)):
+    elif not repl and sorted(seq) != list(range(N)):
         raise Violation("random-sampler-not-a-permutation", "")
-    s2 = RandomSampler(PlainDS(N), num_repeats=r, generator=torch.Generator().manual_seed(spec["seed"]))
+    s2 = RandomSampler(PlainDS(N), replacement=repl, num_repeats=r, generator=torch.Generator().manual_seed(spec["seed"]))
     if list(s2) != seq:
         raise Violation("same-seed-not-reproducible:random", "")
     return Case(r > 1, ["repeats=%d" % r], 2)
@@ -290,9 +296,21 @@ def _group_member(rank, W, store, spec, conn):
         if hasattr(s, "set_epoch"):
             s.set_epoch(spec["epoch"])
         out = [int(i) for i in s]
-        conn.send(("ok", pickle.dumps((out, len(s)))))
+        first = (out, len(s))
         dist.barrier()
         dist.destroy_process_group()
+        second = None
+        if spec.get("regroup"):
+            # the process leaves its group and joins another one with the ranks reversed (a second stage of a job, an elastic restart)
+            r2 = W - 1 - rank
+            dist.init_process_group("gloo", init_method=f"file://{store}.2", rank=r2, world_size=W, timeout=datetime.timedelta(seconds=60))
+            s = _default_sampler(spec)
+            if hasattr(s, "set_epoch"):
+                s.set_epoch(spec["epoch"])
+            second = ([int(i) for i in s], len(s))
+            dist.barrier()
+            dist.destroy_process_group()
+        conn.send(("ok", pickle.dumps((first, second))))
     except BaseException as e:  # pragma: no cover
         try:
             conn.send(("err", repr(e)[:300]))
@@ -367,18 +385,21 @@ def check_process_group(spec):
             if p.is_alive():
                 p.kill()
                 p.join(5)
-        try:
-            os.remove(store)
-        except OSError:
-            pass
-    for r, (stream, length) in enumerate(got):
+        for f_ in (store, store + ".2"):
+            try:
+                os.remove(f_)
+            except OSError:
+                pass
+    phases = [(r, r, first, "") for r, (first, _) in enumerate(got)]
+    phases += [(r, W - 1 - r, second, " in its second group") for r, (_, second) in enumerate(got) if second is not None]
+    for proc, r, (stream, length), where in phases:
         ref = _default_sampler(spec, rank=r, world=W)
         if hasattr(ref, "set_epoch"):
             ref.set_epoch(spec["epoch"])
         exp = [int(i) for i in ref]
         if length != len(ref) or stream != exp:
-            raise Violation(f"default-rank-differs-from-explicit-rank:{spec['kind']}",
-                            f"rank {r} of {W} (before init: {spec['before']}): sampler built without rank/world size yields {len(stream)} entries "
+            raise Violation(f"default-rank-differs-from-explicit-rank:{spec['kind']}{':regrouped' if where else ''}",
+                            f"process {proc}{where} is rank {r} of {W} (before init: {spec['before']}): sampler built without rank/world size yields {len(stream)} entries "
                             f"(len {length}) {stream[:8]}, the explicit (rank={r}, world_size={W}) sampler {len(exp)} entries {exp[:8]}")
     return Case(True, [spec["kind"], "W=%d" % W, "before:" + spec["before"]], W)
 
@@ -386,7 +407,8 @@ def check_process_group(spec):
 GROUP = st.fixed_dictionaries({"kind": st.sampled_from(["distributed", "balanced", "weighted", "semi"]), "W": st.sampled_from([2, 2, 3]),
                                "n": st.integers(4, 24), "counts": st.lists(st.integers(1, 5), min_size=2, max_size=4),
                                "key": st.integers(0, 99), "seed": st.integers(0, 2 ** 20), "epoch": st.sampled_from([0, 1, 7]),
-                               "repeats": st.sampled_from([1, 1, 2]), "before": st.sampled_from(["nothing", "query", "build", "both"])})
+                               "repeats": st.sampled_from([1, 1, 2]), "before": st.sampled_from(["nothing", "query", "build", "both"]),
+                               "regroup": st.booleans()})
 DIST = st.fixed_dictionaries({"N": SIZE, "W": WORLD, "env": ENV, "call": CALL, "seed": SEEDS, "epoch": st.sampled_from([0, 0, 1, 2, 7, 50]),
                               "repeats": st.sampled_from([1, 1, 2, 3, 4]), "shuffle": st.sampled_from([True, True, False]),
                               "drop_last": st.booleans()})
@@ -397,7 +419,7 @@ BAL = st.fixed_dictionaries({"kind": st.just("balanced"), "counts": st.lists(st.
 WEI = st.fixed_dictionaries({"kind": st.just("weighted"), "n": SIZE, "key": st.integers(0, 999), "env": ENV, "rw_form": RW, "call": CALL,
                              "size": st.one_of(st.none(), st.integers(1, 40)), "W": WORLD, "seed": SEEDS,
                              "epoch": st.sampled_from([0, 0, 1, 2, 7, 50])})
-RAND = st.fixed_dictionaries({"N": st.integers(1, 40), "repeats": st.integers(1, 4), "seed": SEEDS})
+RAND = st.fixed_dictionaries({"N": st.integers(1, 40), "repeats": st.integers(1, 4), "seed": SEEDS, "replacement": st.booleans()})
 
 FACETS = [
     Facet("distributed", guarded("distributed", with_env(check_distributed)), strategy=lambda tier: DIST, budget={"quick": 2500, "thorough": 40000},
